@@ -15,20 +15,6 @@ Fixpoint sorted_from (prev : Z) (evs : list hevent) : Prop :=
   | ev :: r => prev <= ev_time ev /\ sorted_from (ev_time ev) r
   end.
 
-Lemma run_step b lookup policy prev c t k fr r :
-  run b lookup policy prev c (to_hev prev ((t, k, fr) :: r)) =
-  match (if lookup then cget b t k c else None) with
-  | Some v => Hit t v :: run b lookup policy t c (to_hev t r)
-  | None =>
-      Miss t t fr (policy fr t)
-           :: run b lookup policy t (match policy fr t with Some ttl => cset b t k fr ttl c | None => c end) (to_hev t r)
-  end.
-Proof.
-  simpl. rewrite Zplus_minus.
-  destruct (if lookup then cget b t k c else None); [reflexivity|].
-  rewrite Z.add_0_r. reflexivity.
-Qed.
-
 (** with unique payload ids, [origin] finds exactly the miss that fetched the payload *)
 Lemma origin_not_in id evs obs : ~ In id (map ev_id evs) -> origin id evs obs = None.
 Proof.
@@ -66,19 +52,18 @@ Section HistSound.
   Hypothesis Hnodup : NoDup (map ev_id all_evs).
   (** a ttl of zero in force: the model neither looks up nor stores *)
   Hypothesis Hzero : cfg_zero (hist_cfg hk) = true -> lookup = false /\ forall fr t, policy fr t = None.
-  (** every ttl the model computes in this history exceeds the measurement slack
-      and ends within the payload's own lifetime *)
+  (** every ttl the model computes in this history ends within the payload's own lifetime *)
   Hypothesis Hpol : forall ev s, In ev all_evs -> policy (ev_fresh ev) (ev_time ev) = Some s ->
-    slack < s /\ match r_exp (ev_fresh ev) with Some e => ev_time ev + s <= hist_limit hk e | None => True end.
+    match r_exp (ev_fresh ev) with Some e => ev_time ev + s <= hist_limit hk e | None => True end.
 
-  (** invariant of the model cache: every entry was fetched by a recorded miss,
-      with a positive observed ttl, and expires within ttl + slack and within
-      the payload's lifetime *)
+  (** invariant of the cache built from the observed ttls: every entry was
+      fetched by a recorded miss, with a positive observed ttl, and expires
+      within that ttl and within the payload's lifetime *)
   Definition hinv (now : Z) (c : cache result) : Prop :=
     forall en, In en c ->
       exists ts s' x,
         origin (r_id (en_val en)) all_evs all_obs = Some (ts, Some s', r_exp (en_val en)) /\
-        ts <= now /\ 0 < s' /\ en_exp en = Some x /\ x <= ts + s' + slack /\
+        ts <= now /\ 0 < s' /\ en_exp en = Some x /\ x <= ts + s' /\
         match r_exp (en_val en) with Some e => x <= hist_limit hk e | None => True end.
 
   Lemma hinv_mono now now' c : now <= now' -> hinv now c -> hinv now' c.
@@ -90,28 +75,28 @@ Section HistSound.
   Lemma hinv_remove now k c : hinv now c -> hinv now (remove k c).
   Proof. intros H en Hin. apply H. eapply In_remove; exact Hin. Qed.
 
-  Lemma hinv_cset now k fr s s' c :
+  Lemma hinv_cset now k fr s' c :
     hinv now c ->
     origin (r_id fr) all_evs all_obs = Some (now, Some s', r_exp fr) ->
-    slack < s -> s - slack <= s' <= s ->
-    match r_exp fr with Some e => now + s <= hist_limit hk e | None => True end ->
-    hinv now (cset b now k fr s c).
+    0 < s' ->
+    match r_exp fr with Some e => now + s' <= hist_limit hk e | None => True end ->
+    hinv now (cset b now k fr s' c).
   Proof.
-    intros Hc Ho Hs Hs' Hlim.
-    assert (Hnew : forall x, x <= now + s ->
+    intros Hc Ho Hs Hlim.
+    assert (Hnew : forall x, x <= now + s' ->
               forall en, In en ({| en_key := k; en_val := fr; en_exp := Some x |} :: remove k c) ->
               exists ts s'0 x0,
                 origin (r_id (en_val en)) all_evs all_obs = Some (ts, Some s'0, r_exp (en_val en)) /\
-                ts <= now /\ 0 < s'0 /\ en_exp en = Some x0 /\ x0 <= ts + s'0 + slack /\
+                ts <= now /\ 0 < s'0 /\ en_exp en = Some x0 /\ x0 <= ts + s'0 /\
                 match r_exp (en_val en) with Some e => x0 <= hist_limit hk e | None => True end).
     { intros x Hx en [<-|Hin]; [|apply (hinv_remove now k c Hc); exact Hin].
       simpl. exists now, s', x. split; [exact Ho|]. split; [lia|]. split; [lia|]. split; [reflexivity|].
       split; [lia|]. destruct (r_exp fr); [lia | exact I]. }
     unfold cset. destruct b.
-    - assert (E2 : (s =? -2) = false) by lia. rewrite E2.
-      assert (Ep : (s >? 0) = true) by lia. rewrite Ep. refine (Hnew (now + s) _). lia.
-    - destruct (millis s <=? 0) eqn:Em; [exact Hc|].
-      refine (Hnew (now + msecs (millis s)) _). pose proof (millis_le s ltac:(lia)). lia.
+    - assert (E2 : (s' =? -2) = false) by lia. rewrite E2.
+      assert (Ep : (s' >? 0) = true) by lia. rewrite Ep. refine (Hnew (now + s') _). lia.
+    - destruct (millis s' <=? 0) eqn:Em; [exact Hc|].
+      refine (Hnew (now + msecs (millis s')) _). pose proof (millis_le s' ltac:(lia)). lia.
   Qed.
 
   Lemma hist_sound_gen : forall sfx_evs sfx_obs pre_evs pre_obs now c,
@@ -119,16 +104,15 @@ Section HistSound.
     all_evs = pre_evs ++ sfx_evs -> all_obs = pre_obs ++ sfx_obs ->
     sorted_from now sfx_evs ->
     hinv now c ->
-    hist_corr slack (run b lookup policy now c (to_hev now sfx_evs)) sfx_obs = true ->
+    hist_refines b lookup policy c sfx_evs sfx_obs = true ->
     hist_prop_from slack hk all_evs all_obs sfx_evs sfx_obs = true.
   Proof.
     induction sfx_evs as [|[[t k] fr] r IH]; intros sfx_obs pre_evs pre_obs now c Hlen He Ho Hsort Hinv Hc.
     - simpl in Hc. destruct sfx_obs; [reflexivity | discriminate].
     - destruct Hsort as [Hnow Hsort]. simpl in Hnow, Hsort.
-      rewrite run_step in Hc.
       assert (Hnext : forall o sfx_obs' c',
                  sfx_obs = o :: sfx_obs' -> hinv t c' ->
-                 hist_corr slack (run b lookup policy t c' (to_hev t r)) sfx_obs' = true ->
+                 hist_refines b lookup policy c' r sfx_obs' = true ->
                  hist_prop_from slack hk all_evs all_obs r sfx_obs' = true).
       { intros o sfx_obs' c' -> Hinv' Hc'.
         apply (IH sfx_obs' (pre_evs ++ [(t, k, fr)]) (pre_obs ++ [o]) t c').
@@ -138,49 +122,46 @@ Section HistSound.
         - exact Hsort.
         - exact Hinv'.
         - exact Hc'. }
-      destruct (if lookup then cget b t k c else None) as [v|] eqn:Eg.
-      + (* the model serves [v] from cache *)
-        destruct sfx_obs as [|[id|s] sfx_obs']; try discriminate. simpl in Hc.
-        apply andb_true_iff in Hc as [Hid Hc]. assert (r_id v = id) by lia. subst id.
-        destruct lookup eqn:El; [|discriminate].
+      destruct sfx_obs as [|[id|[s'|]] sfx_obs']; simpl in Hc; try discriminate.
+      + (* answered from cache *)
+        apply andb_true_iff in Hc as [Hc Hrest]. apply andb_true_iff in Hc as [Hl Hget].
         assert (Hz : cfg_zero (hist_cfg hk) = false).
-        { destruct (cfg_zero (hist_cfg hk)) eqn:Ez; [|reflexivity]. destruct (Hzero eq_refl) as [Hl _]. discriminate. }
-        unfold cget in Eg. destruct (find k c) as [en|] eqn:Ef; [|discriminate].
-        destruct (live b t en) eqn:Elive; [|discriminate]. inversion Eg; subst v.
+        { destruct (cfg_zero (hist_cfg hk)) eqn:Ez; [|reflexivity]. destruct (Hzero eq_refl) as [Hl' _]. congruence. }
+        unfold cget in Hget. destruct (find k c) as [en|] eqn:Ef; [|discriminate].
+        destruct (live b t en) eqn:Elive; [|discriminate]. assert (r_id (en_val en) = id) by lia. subst id.
         destruct (Hinv en (find_In _ _ _ Ef)) as (ts & s' & x & Hor & Hts & Hs' & Hx & Hxle & Hlim).
         simpl. rewrite Hz, Hor. simpl.
         assert (Htx : t <= x) by (unfold live in Elive; rewrite Hx in Elive; destruct b; lia).
-        rewrite (Hnext _ _ c eq_refl (hinv_mono now t c Hnow Hinv) Hc).
+        rewrite (Hnext _ _ c eq_refl (hinv_mono now t c Hnow Hinv) Hrest).
         assert (E1 : (ts <=? t) = true) by lia. assert (E2 : (0 <? s') = true) by lia.
         assert (E3 : (t - ts <=? s' + slack) = true) by lia. rewrite E1, E2, E3. simpl.
         destruct (r_exp (en_val en)) as [e|]; simpl; [|reflexivity].
         assert (E4 : (t <=? hist_limit hk e + slack) = true) by lia. rewrite E4. reflexivity.
-      + (* fresh evaluation *)
-        destruct (policy fr t) as [s|] eqn:Ep.
-        * destruct sfx_obs as [|[id|[s'|]] sfx_obs']; try discriminate. simpl in Hc.
-          apply andb_true_iff in Hc as [Hb Hc]. apply between_spec in Hb.
-          assert (Hin : In (t, k, fr) all_evs) by (rewrite He; apply in_or_app; right; left; reflexivity).
-          destruct (Hpol (t, k, fr) s Hin Ep) as [Hs Hlim]. simpl in Hlim.
-          assert (Hz : cfg_zero (hist_cfg hk) = false).
-          { destruct (cfg_zero (hist_cfg hk)) eqn:Ez; [|reflexivity]. destruct (Hzero eq_refl) as [_ Hn].
-            rewrite Hn in Ep. discriminate. }
-          simpl. rewrite Hz. simpl.
-          refine (Hnext _ _ (cset b t k fr s c) eq_refl _ Hc).
-          apply (hinv_cset t k fr s s'); try assumption; [apply (hinv_mono now t c Hnow Hinv)|].
-          pose proof Hnodup as Hnd'. rewrite He in Hnd'.
+      + (* fresh evaluation, stored with the observed ttl [s'] *)
+        apply andb_true_iff in Hc as [Hc Hrest]. apply andb_true_iff in Hc as [Hpos Hle].
+        destruct (policy fr t) as [s|] eqn:Ep; [|discriminate].
+        assert (Hin : In (t, k, fr) all_evs) by (rewrite He; apply in_or_app; right; left; reflexivity).
+        pose proof (Hpol (t, k, fr) s Hin Ep) as Hlim. simpl in Hlim.
+        assert (Hz : cfg_zero (hist_cfg hk) = false).
+        { destruct (cfg_zero (hist_cfg hk)) eqn:Ez; [|reflexivity]. destruct (Hzero eq_refl) as [_ Hn].
+          rewrite Hn in Ep. discriminate. }
+        simpl. rewrite Hz. simpl.
+        refine (Hnext _ _ (cset b t k fr s' c) eq_refl _ Hrest).
+        apply (hinv_cset t k fr s'); [apply (hinv_mono now t c Hnow Hinv) | | lia |].
+        * pose proof Hnodup as Hnd'. rewrite He in Hnd'.
           rewrite He, Ho. apply origin_unique; [exact Hlen | exact Hnd'].
-        * destruct sfx_obs as [|[id|[s'|]] sfx_obs']; try discriminate. simpl in Hc.
-          simpl. destruct (cfg_zero (hist_cfg hk)); simpl;
-            apply (Hnext _ _ c eq_refl (hinv_mono now t c Hnow Hinv) Hc).
+        * destruct (r_exp fr); [lia | exact I].
+      + (* fresh evaluation, nothing stored *)
+        simpl. destruct (cfg_zero (hist_cfg hk)); simpl;
+          apply (Hnext _ _ c eq_refl (hinv_mono now t c Hnow Hinv) Hc).
   Qed.
 End HistSound.
 
 (** ** instantiation for [check] *)
 
 (** what the driver guarantees about a recorded history: request instants do
-    not decrease, every remote answer carries a fresh payload id, a mechanism
-    without expiry information reports none, and every ttl the model computes
-    exceeds the measurement slack (the driver repeats a case otherwise) *)
+    not decrease, every remote answer carries a fresh payload id, and a
+    mechanism without expiry information reports none *)
 Record hist_wf (f : fixes) (hk : hkind) (slack : Z) (evs : list hevent) : Prop := {
   hw_slack : 0 <= slack;
   hw_sorted : sorted_from (match evs with ev :: _ => ev_time ev | [] => 0 end) evs;
@@ -188,12 +169,7 @@ Record hist_wf (f : fixes) (hk : hkind) (slack : Z) (evs : list hevent) : Prop :
   hw_noexp : match hk with
              | HMech m _ _ => expiry_mech m = false -> forall ev, In ev evs -> r_exp (ev_fresh ev) = None
              | HHttp _ => True
-             end;
-  hw_ttl : forall ev s, In ev evs ->
-             match hk with
-             | HMech m conf rule => mech_policy f m (exec_state f m conf rule) (ev_fresh ev) (ev_time ev) = Some s
-             | HHttp dflt => http_policy f dflt (ev_fresh ev) (ev_time ev) = Some s
-             end -> slack < s
+             end
 }.
 
 Lemma existsb_false_In {A} (p : A -> bool) l : existsb p l = false -> forall x, In x l -> p x = false.
@@ -209,16 +185,12 @@ Theorem check_sound_hist : forall f b hk slack xsets evs obs,
 Proof.
   intros f b hk slack xsets evs obs Hwf v Hc Hg. subst v. simpl in *.
   apply andb_true_iff in Hc as [_ Hc].
-  destruct Hwf as [Hslack Hsorted Hnodup Hnoexp Httl].
-  unfold hist_run in Hc.
-  set (t0 := match evs with (t, _, _) :: _ => t | [] => 0 end) in *.
-  assert (Ht0 : t0 = match evs with ev :: _ => ev_time ev | [] => 0 end).
-  { subst t0. destruct evs as [|[[t k] fr] r]; reflexivity. }
-  rewrite <- Ht0 in Hsorted.
+  destruct Hwf as [Hslack Hsorted Hnodup Hnoexp].
+  set (t0 := match evs with ev :: _ => ev_time ev | [] => 0 end) in *.
   destruct hk as [m conf rule | dflt].
   - (* a mechanism *)
     simpl in Hg. apply guards2 in Hg as [Hg1 Hg3].
-    set (st := exec_state f m conf rule) in *.
+    simpl in Hc. set (st := exec_state f m conf rule) in *.
     apply (hist_sound_gen b (lookup_enabled m st) (mech_policy f m st) (HMech m conf rule) slack evs obs
              Hslack Hnodup) with (pre_evs := []) (pre_obs := []) (now := t0) (c := []); try reflexivity; try assumption.
     + (* zero disables *)
@@ -231,7 +203,7 @@ Proof.
       destruct (zero_disables f m conf rule Hm Hcfg Hg3) as [Hl Hs]. split; [exact Hl|].
       intros fr t. unfold mech_policy. apply Hs.
     + (* ttls *)
-      intros ev s Hin Hp. split; [apply (Httl ev s Hin Hp)|].
+      intros ev s Hin Hp.
       destruct (r_exp (ev_fresh ev)) as [e|] eqn:Ee; [|exact I].
       destruct (expiry_mech m) eqn:Emech.
       2:{ rewrite (Hnoexp eq_refl ev Hin) in Ee. discriminate. }
@@ -242,10 +214,11 @@ Proof.
       unfold limit. pose proof (grace_nonneg m). lia.
     + intros en [].
   - (* the round tripper *)
+    simpl in Hc.
     apply (hist_sound_gen b true (http_policy f dflt) (HHttp dflt) slack evs obs
              Hslack Hnodup) with (pre_evs := []) (pre_obs := []) (now := t0) (c := []); try reflexivity; try assumption.
     + intro Hz. discriminate.
-    + intros ev s Hin Hp. split; [apply (Httl ev s Hin Hp)|].
+    + intros ev s Hin Hp.
       destruct ev as [[t k] fr]. simpl in *. unfold http_policy, http_store_decision in Hp. simpl in Hp.
       destruct (r_exp fr) as [e|]; [|exact I].
       destruct (fx2 f && (e - t <=? 0)); inversion Hp; lia.
